@@ -4,7 +4,7 @@ import random
 
 
 class Inst:
-    def __init__(self, name, module, pkg, body, unwind, desc, core=True, timeout=600, cost=1.0, attrs=(), features=(), require_opt=(), unwindset=(), expect_fail=None):
+    def __init__(self, name, module, pkg, body, unwind, desc, core=True, timeout=600, cost=1.0, attrs=(), features=(), require_opt=(), unwindset=(), expect_fail=None, mem=2):
         self.name = name
         self.module = module  # harness module (file) the instance lives in
         self.pkg = pkg  # cargo package passed to `cargo kani -p`
@@ -19,6 +19,7 @@ class Inst:
         self.require_opt = set(require_opt)
         self.unwindset = list(unwindset)
         self.expect_fail = expect_fail
+        self.mem = mem  # expected peak resident set of the solver in GB (limits how many run side by side)
         self.modpath = None
 
     def full_name(self):
@@ -149,7 +150,8 @@ def c09_inst(w, m, n, length=None, core=True, timeout=900):
     unw = max(unw, w + 2, r + 1)
     return Inst(name, "verif_c09", "kmer", body, unw, {"w": w, "m": m, "len": ld, "bytes": "symbolic 0x04..=0xFF"},
                 core=core, timeout=timeout, cost=float(nn * (w - m + 2)),
-                unwindset=[("kmer/src/minimiser.rs", r"for\s+\w+\s+in\s+0\.\.self\.buff\.len\(\)", w - m + 3)])
+                unwindset=[("kmer/src/minimiser.rs", r"for\s+\w+\s+in\s+0\.\.self\.buff\.len\(\)", w - m + 3)],
+                mem=(8 if nn >= w + 3 else (4 if nn >= w + 2 else 2)))
 
 
 def c09_instances(tier, seed):
@@ -203,6 +205,7 @@ def c18_inst(w, m, length, core=True, timeout=1200):
         {"w": w, "m": m, "len": str(length), "bytes": "symbolic 0x04..=0xFF"}, core=core, timeout=timeout,
         cost=float(length * (w - m + 2)),
         unwindset=[("kmer/src/minimiser.rs", BUFF_LOOP, w - m + 3), ("kmer/src/kmer_minimisers.rs", BUFF_LOOP, w - m + 3)],
+        mem=(10 if length >= w + 2 else (5 if length >= w + 1 else 2)),
     )
 
 
@@ -489,7 +492,7 @@ def c04_instances(tier, seed):
                         max(n + 2, kcount_of(k) + 2, MAPU if k <= 3 else 0),
                         {"clause": "row = per-column window counts (%s)" % ("normalised" if norm else "raw"), "k": k, "max_len": n, "len": "symbolic 0..=%d" % n,
                          "column": "symbolic", "tables": [k]}, core=core, timeout=timeout, cost=20.0 * n * (2 if norm else 1) * kcount_of(k),
-                        unwindset=[kmer_loop(n)], attrs=C04_STUBS))
+                        unwindset=[kmer_loop(n)], attrs=C04_STUBS, mem=(10 if k >= 4 else 3)))
 
     def inv(k, n, mode, core=True, timeout=1500):
         nm = ["revcomp", "case", "tu"][mode]
@@ -497,7 +500,7 @@ def c04_instances(tier, seed):
                         "c04_invariance::<%d, %d, %d>(&RANK_K%d, COUNT_K%d)" % (k, n, mode, k, k), max(n + 2, kcount_of(k) + 2, MAPU if k <= 3 else 0),
                         {"clause": "row invariant under " + ["reverse complement", "letter case toggle", "U for T"][mode], "k": k, "max_len": n,
                          "len": "symbolic 0..=%d" % n, "norm": "symbolic", "column": "symbolic", "tables": [k]}, core=core, timeout=timeout,
-                        cost=30.0 * n * kcount_of(k), unwindset=[kmer_loop(n)], attrs=C04_STUBS))
+                        cost=30.0 * n * kcount_of(k), unwindset=[kmer_loop(n)], attrs=C04_STUBS, mem=(10 if k >= 3 else 3)))
 
     if tier == "quick":
         for k, n in ((1, 4), (2, 5), (3, 5)):
@@ -609,14 +612,15 @@ def c12_instances(tier, seed):
                         MAPU,
                         {"clause": "(x,y) = CGR end point of the column's k-mer, f = oligo value (%s)" % ("normalised" if norm else "raw"), "k": k,
                          "len": n, "square": "symbolic 1..=2^20", "column": "symbolic", "tables": [1, 2, 3]},
-                        core=core, timeout=timeout, cost=50.0 * n * kcount_of(k) + 1, unwindset=[kmer_loop(n), ocgr_kmer_loop(k)], attrs=C12_STUBS))
+                        core=core, timeout=timeout, cost=50.0 * n * kcount_of(k) + 1, unwindset=[kmer_loop(n), ocgr_kmer_loop(k)], attrs=C12_STUBS,
+                        mem=(10 if k >= 2 else 2)))
 
     def rowindep(k, n, core=True, timeout=1800):
         out.append(Inst("c12_rowindep_k%d_l%d" % (k, n), "verif_c12", "composition",
                         "c12_rowindep::<%d, %d>(COUNT_K%d)" % (k, n, k), MAPU,
                         {"clause": "(x,y) of a column is the same in every row", "k": k, "len": n, "square": "symbolic 1..=2^20", "norm": "symbolic",
                          "column": "symbolic", "tables": [1, 2, 3]}, core=core, timeout=timeout, cost=50.0 * n * kcount_of(k),
-                        unwindset=[kmer_loop(n), ocgr_kmer_loop(k)], attrs=C12_STUBS))
+                        unwindset=[kmer_loop(n), ocgr_kmer_loop(k)], attrs=C12_STUBS, mem=(10 if k >= 2 else 3)))
 
     if tier == "quick":
         for n in (0, 1, 3):
@@ -981,7 +985,7 @@ def c13_instances(tier, seed):
         out.append(Inst("c13_min_iter_w%d_m%d_l%d" % (w, m, n), "verif_c13m", "pybindings", "c13_min_iter::<%d, %d, %d, %d>()" % (w, m, n, n - w + 3), max(n + 2, w + 2),
                         {"clause": "minimiser iterator: binding vs core after the String is consumed and the object moved", "w": w, "m": m, "len": n},
                         core=(n <= 2), timeout=2400, cost=300.0,
-                        unwindset=[("kmer/src/minimiser.rs", BUFF_LOOP, w - m + 3)]))
+                        unwindset=[("kmer/src/minimiser.rs", BUFF_LOOP, w - m + 3)], mem=10))
     return out
 
 
